@@ -945,6 +945,37 @@ func (c *cctx) evalCall(e *ast.CallExpr) cval {
 			return c.boolVal(True)
 		}
 		return c.boolVal(Select(Select(x.mapHasArr(c.st), x.scalarOf(m.v, m.t)), k))
+	case "calls", "lastarg", "lastres":
+		// call records of the unit (see trace.go)
+		lit, ok := arg(0).(*ast.BasicLit)
+		if !ok || lit.Kind != token.STRING {
+			c.fail("%s wants a callee name string", name)
+			return c.boolVal(True)
+		}
+		cn, _ := strconv.Unquote(lit.Value)
+		switch name {
+		case "calls":
+			if v, ok := c.st.ghosts["$calls:"+cn].(Sc); ok {
+				return c.mathVal(v.T)
+			}
+			return c.mathVal(x.ar.mathC(big.NewInt(0)))
+		case "lastres":
+			if v, ok := c.st.ghosts["$res:"+cn].(Sc); ok {
+				return cval{v, types.Universe.Lookup("error").Type()}
+			}
+			return cval{Sc{x.freshTerm("nores", IntSort)}, types.Universe.Lookup("error").Type()}
+		default:
+			k := 0
+			if len(e.Args) > 1 {
+				if kl, ok := arg(1).(*ast.BasicLit); ok {
+					k, _ = strconv.Atoi(kl.Value)
+				}
+			}
+			if v, ok := c.st.ghosts[fmt.Sprintf("$arg%d:%s", k, cn)].(Sc); ok {
+				return cval{v, types.Typ[types.UnsafePointer]}
+			}
+			return cval{Sc{x.freshTerm("noarg", IntSort)}, types.Typ[types.UnsafePointer]}
+		}
 	case "allocated":
 		// allocated(p): p is nil or an object that exists now (it is not one a
 		// later allocation returns)
